@@ -237,8 +237,10 @@ def build(X):
     ror.rewrite("R6", "Result<Range<i64>>", "Result<Range<i64>, Error>")
     ror.rewrite("R5", "Range::default()", "range_default()",
                 why="#[derive(Default)] output is not visible to Verus; contract: both bounds None")
-    ror.rewrite_re("R5", r"\bi64::(min|max)\b", r"i64_\1", count=1,
+    ror.rewrite_re("R5", r"\bi64::(min|max)\b", r"i64_\1", count=None,
                    why="Ord::min/max are provided trait methods; Verus cannot attach a specification to them")
+    ror.rewrite_re("R5", r"\b([a-z_][a-z0-9_]*)\.(min|max)\(", r"i64_\2(\1, ", count=None,
+                   why="method-call form of Ord::min/max on an i64 variable")
     ror.rewrite("R3", "for range in ranges", "for range in it: ranges",
                 why="Verus needs a name for the iterator to state the loop invariant")
     ror.annotate_closures(fn_sigs={"shift_bound": (["i64", "i64"], "Result<i64, Error>")})
